@@ -371,6 +371,7 @@ def _module_state(W):
                 for i, d in enumerate(val.__defaults__ or ()):
                     if isinstance(d, (dict, list, set, SArr)):
                         out["%s.%s.default%d" % (mname, name, i)] = sig(d)
+    out["numpy.errstate"] = repr(sorted(W.np.geterr().items()))
     main = W.modules.get("lbfgsb.main")
     if main is not None and hasattr(main, "_symx_real"):
         for fname, fn in main._symx_real.items():
@@ -387,6 +388,8 @@ def _c14(ctx, params):
     mode = params["mode"]
     before_mod = _module_state(W)
     base = _cfg(params, gtol, callback_kind="false")
+    if params.get("jac"):
+        base["jac"] = None if params["jac"] == "none" else params["jac"]
     P1 = Run(prob, "P1").execute(dict(base))
     if P1.exc is not None:
         return _exc(ctx, P1, info, "P1")
@@ -651,7 +654,14 @@ def _c13_rewrite(ctx, params):
     def R_dir_calls():
         return ST.dir_calls
     d0 = len(ST.dir_calls)
-    R.execute(_cfg(params, gtol, callback_kind="false", update_fun_def=upd))
+    ck_info = None
+    extra = {}
+    if params.get("ck_pairs"):
+        # restart from an arbitrary coherent checkpoint: the INITIAL update call then sees a non-empty history
+        from .orch_single import make_checkpoint
+        ck, ck_info = make_checkpoint(ctx, W, prob, dict(ck_pairs=params["ck_pairs"], ck_nit=1, ck_nfev=2))
+        extra = dict(checkpoint=ck, x0=ck["x"])
+    R.execute(_cfg(params, gtol, callback_kind="false", update_fun_def=upd, **extra))
     if R.exc is not None:
         return _exc(ctx, R, info, "R")
     if seen["X"] is None:
@@ -661,7 +671,9 @@ def _c13_rewrite(ctx, params):
     m = hi.sk.shape[0]
     # visited points: every accepted iterate of the run (start + accepted steps)
     its = []
-    if R.fcalls:
+    if ck_info is not None:
+        its = [list(p) for p in ck_info["points"]]
+    elif R.fcalls:
         its.append(R.fcalls[0][0])
     for c in R.ls_calls:
         if c["ret"] is not None:
